@@ -277,6 +277,30 @@ theorem mem_getQ_setValidator (s : State) (v : Val) (t : Int) (b : Addr) :
     · simp [h2, getQ]
   | unstaked => simp [getQ]
 
+theorem nodup_setUnstaking (s : State) (v : Val) (h : (s.unstQ.map (·.1)).Nodup) :
+    ((setUnstaking s v).unstQ.map (·.1)).Nodup := nodup_aset h _ _
+
+theorem nodup_delUnstaking (s : State) (v : Val) (h : (s.unstQ.map (·.1)).Nodup) :
+    ((delUnstaking s v).unstQ.map (·.1)).Nodup := by
+  unfold delUnstaking
+  simp only
+  split
+  · exact nodup_adel h _
+  · exact nodup_aset h _ _
+
+theorem nodup_setValidator_unstQ (s : State) (v : Val) (h : (s.unstQ.map (·.1)).Nodup) :
+    ((setValidator s v).unstQ.map (·.1)).Nodup := by
+  unfold setValidator
+  cases hs : v.status with
+  | unstaking =>
+    simp only [if_true, reduceCtorEq, false_and, if_false]
+    exact nodup_setUnstaking _ v h
+  | staked =>
+    by_cases h2 : v.jailed = false
+    · simp [h2, h]
+    · simp [h2, h]
+  | unstaked => simp [h]
+
 /-! ## deleteValidator, waiting -/
 @[simp] theorem deleteValidator_vals (s : State) (a : Addr) : (deleteValidator s a).vals = adel s.vals a := rfl
 @[simp] theorem deleteValidator_stakedIdx (s : State) (a : Addr) : (deleteValidator s a).stakedIdx = s.stakedIdx := rfl
